@@ -2,6 +2,7 @@
 From Boltons Require Import Lib.Prelude Lib.C02_Syntax Spec.C02_Spec Model.C02_Model
   Model.C02_PtrModel Model.C02_PtrCache Proofs.C02_PtrLemmas Proofs.C02_PtrRep Proofs.C02_PtrSim Check.C02_Check
   Model.C02_PtrInterp Gen.C02_Gen Proofs.C02_GenObl Proofs.C02_SpecSane
+  Model.C02_MethInterp Gen.C02_GenM Proofs.C02_MethObl
   Proofs.C02_Lists Proofs.C02_Inv Proofs.C02_Heap Proofs.C02_Thms Proofs.C02_Counters Proofs.C02_Recency.
 Close Scope N_scope.
 Open Scope nat_scope.
@@ -326,3 +327,92 @@ Theorem C02_spec_sane : forall c init steps rh',
   1 <= c_max c -> spec_final c [r_init c init] steps = Some rh' -> Forall (SInv c) rh'.
 Proof. exact spec_sane. Qed.
 Print Assumptions C02_spec_sane.
+
+(* ---- (T) the public methods ARE the current source ---------------------------------------------- *)
+(* coq/Gen/C02_GenM.v: the bodies of __setitem__, LRI/LRU.__getitem__, get, __delitem__,
+   pop, popitem, clear, setdefault and update, regenerated from the ast on every run
+   (harness/translators/c02_methods.py) as programs of Model/C02_MethInterp.v
+   (with / try-except KeyError-else / if / for / chained assignment / helper and
+   super() calls / self[k] / self.on_miss(k)).  Running them is the pointer-level
+   cache model; calls of other methods and of the helpers are interpreted by the
+   model's own functions (compositional), the helpers being tied by C02_gen_*. *)
+Theorem C02_method_setitem : forall c p k v,
+  genm_present = true ->
+  call_method c genm_setitem (params k (MVal v) MNone MNone MNone) p = of_unit (psetitem c p k v).
+Proof. exact genm_setitem_ok. Qed.
+Print Assumptions C02_method_setitem.
+
+Theorem C02_method_getitem_lri : forall c p k,
+  genm_present = true -> c_cls c = LRI -> link_has_value (ps_ring p) k ->
+  call_method c genm_getitem_lri (params k MNone MNone MNone MNone) p = of_val (pgetitem c p k).
+Proof. exact genm_getitem_lri_ok. Qed.
+Print Assumptions C02_method_getitem_lri.
+
+Theorem C02_method_getitem_lru : forall c p k,
+  genm_present = true -> c_cls c = LRU -> moved_link_has_value (ps_ring p) k ->
+  call_method c genm_getitem_lru (params k MNone MNone MNone MNone) p = of_val (pgetitem c p k).
+Proof. exact genm_getitem_lru_ok. Qed.
+Print Assumptions C02_method_getitem_lru.
+
+(* the two side conditions (a link the table knows never holds _MISSING) hold for
+   every represented ring, hence in every reachable state (C02_pointer_inv) *)
+Theorem C02_method_side_conditions : forall pr l ids k,
+  Rep pr l ids -> NoDup (keys l) -> link_has_value pr k /\ moved_link_has_value pr k.
+Proof. exact method_side_conditions. Qed.
+Print Assumptions C02_method_side_conditions.
+
+Theorem C02_method_get : forall c p k d,
+  genm_present = true ->
+  call_method c genm_get (params k MNone (MVal d) MNone MNone) p = of_step (pstep1 c p (Get k d)).
+Proof. exact genm_get_ok. Qed.
+Print Assumptions C02_method_get.
+
+Theorem C02_method_setdefault : forall c p k d,
+  genm_present = true ->
+  call_method c genm_setdefault (params k MNone (MVal d) MNone MNone) p = of_step (pstep1 c p (SetDefault k d)).
+Proof. exact genm_setdefault_ok. Qed.
+Print Assumptions C02_method_setdefault.
+
+Theorem C02_method_delitem : forall c p k,
+  genm_present = true ->
+  call_method c genm_delitem (params k MNone MNone MNone MNone) p = of_step (pstep1 c p (DelItem k)).
+Proof. exact genm_delitem_ok. Qed.
+Print Assumptions C02_method_delitem.
+
+Theorem C02_method_pop : forall c p k d,
+  genm_present = true ->
+  call_method c genm_pop (params k MNone (default_mv d) MNone MNone) p = of_step (pstep1 c p (Pop k d)).
+Proof. exact genm_pop_ok. Qed.
+Print Assumptions C02_method_pop.
+
+Theorem C02_method_popitem : forall c p,
+  genm_present = true ->
+  call_method c genm_popitem (params 0 MNone MNone MNone MNone) p = of_step (pstep1 c p PopItem).
+Proof. exact genm_popitem_ok. Qed.
+Print Assumptions C02_method_popitem.
+
+Theorem C02_method_clear : forall c p,
+  genm_present = true ->
+  call_method c genm_clear (params 0 MNone MNone MNone MNone) p = of_step (pstep1 c p Clear).
+Proof. exact genm_clear_ok. Qed.
+Print Assumptions C02_method_clear.
+
+(* update(E, **F): E an iterable of pairs, a mapping with keys() (distinct keys), or
+   the cache itself; F the keyword dict (distinct keys) *)
+Theorem C02_method_update_pairs : forall c p e f,
+  genm_present = true -> NoDup (keys f) ->
+  call_method c genm_update (params 0 MNone MNone (MSeq e) (MMap f)) p = of_step (pstep1 c p (Update e f)).
+Proof. exact genm_update_seq_ok. Qed.
+Print Assumptions C02_method_update_pairs.
+
+Theorem C02_method_update_mapping : forall c p e f,
+  genm_present = true -> NoDup (keys e) -> NoDup (keys f) ->
+  call_method c genm_update (params 0 MNone MNone (MMap e) (MMap f)) p = of_step (pstep1 c p (Update e f)).
+Proof. exact genm_update_map_ok. Qed.
+Print Assumptions C02_method_update_mapping.
+
+Theorem C02_method_update_self : forall c p f,
+  genm_present = true -> NoDup (keys f) ->
+  call_method c genm_update (params 0 MNone MNone MSelf (MMap f)) p = of_step (pstep1 c p (UpdateSelf f)).
+Proof. exact genm_update_self_ok. Qed.
+Print Assumptions C02_method_update_self.
